@@ -100,6 +100,36 @@ struct PC
     }
 };
 
+// an over-aligned payload (a cache-line padded per-thread structure) with a member that owns memory
+struct alignas(64) PD
+{
+    int id;
+    std::string text;
+    explicit PD(int i) : id(i), text(100, 'd')
+    {
+        acct().created(this, 'D', i);
+    }
+    ~PD()
+    {
+        acct().destroying(this, 'D');
+    }
+};
+// a payload whose constructor throws for odd ids (nothing was created, so nothing may be destroyed)
+struct PT
+{
+    int id;
+    explicit PT(int i) : id(i)
+    {
+        if (i % 2)
+            throw std::out_of_range("payload constructor refuses odd ids");
+        acct().created(this, 'T', i);
+    }
+    ~PT()
+    {
+        acct().destroying(this, 'T');
+    }
+};
+
 // ---------------------------------------------------------------------------------------------
 // model 1: quaint_ptr
 
@@ -719,9 +749,42 @@ static void wide_cases(mc::Report& rep)
         {
         case 0: return nitro::lang::make_quaint<PA>(i);
         case 1: return nitro::lang::make_quaint<PB>(i);
-        default: return nitro::lang::make_quaint<PC>(i);
+        default: return i % 2 ? nitro::lang::make_quaint<PD>(i) : nitro::lang::make_quaint<PC>(i);
         }
     };
+    // creation that fails: the constructor of the payload throws - nothing exists, nothing is destroyed, nothing leaks
+    {
+        acct().live.clear();
+        acct().destroyed.clear();
+        acct().errors.clear();
+        int threw = 0;
+        std::vector<quaint_ptr> keep;
+        for (int i = 0; i < 6; i++)
+        {
+            try
+            {
+                keep.push_back(nitro::lang::make_quaint<PT>(i));
+            }
+            catch (std::out_of_range&)
+            {
+                threw++;
+            }
+        }
+        std::string problem;
+        if (threw != 3 || acct().live.size() != 3)
+            problem = std::to_string(threw) + " constructions threw and " + std::to_string(acct().live.size()) + " payloads are alive (expected 3 and 3)";
+        keep.clear();
+        if (problem.empty() && !acct().live.empty())
+            problem = "payloads leaked";
+        for (auto& e : acct().errors)
+            problem += (problem.empty() ? "" : "; ") + e;
+        rep.count("executions");
+        if (!problem.empty())
+            rep.violation("payload-accounting(throwing-constructor)", "C18:payload-accounting:throwing-constructor", mc::J().s("model", "wide").n("n", 0).str(),
+                          "make_quaint<T>(args) where T's constructor throws for every second call: " + problem.substr(0, 400), 0);
+        acct().live.clear();
+        acct().errors.clear();
+    }
     for (int n : { 17, 64, 300, 1025 })
     {
         acct().live.clear();
